@@ -1316,6 +1316,10 @@ func unmapIndexEntry(index *Index, sqlPrefix, mkey []byte) (encPKVals []byte, er
 
 	//read index values
 	for _, col := range index.cols {
+		if len(enc)-off < 1 {
+			return nil, ErrCorruptedData
+		}
+
 		if enc[off] == KeyValPrefixNull {
 			off += 1
 			continue
